@@ -116,6 +116,14 @@ TEXT = {
         'note': NOTE_COMMON + ' Closed forms assume the destination does not overwrite the two instruction bytes.',
         'technique': 'Lean 4 proof: explicit one-Step lemmas (simp through C01) + induction over the repeat count; differential correspondence running block operations to completion (up to 65536 Steps)',
     },
+    'C07': {
+        'text': 'Machine-checked about Gen.Step (via C06/C01) for EVERY boundary state: acceptance of NMI / mode 1 / mode 2 pushes exactly the current PC (the first instruction not yet executed; C09 shows PC is parked on a repeating block instruction, C08 that HALT leaves PC on its opcode) '
+                'and alters only SP, PC, IFF1/IFF2, two stack bytes and the request; EI;RETI resp. RETN from ANY handler state with the stack as acceptance left it return to that PC and SP with interrupts re-enabled (IFF1 restored from IFF2 for RETN); the complete round trip through a minimal handler '
+                'yields a state equal to the interrupted one in all registers, flags, IFF, IM, HALT and memory outside the two bytes below SP. Requests arriving under DI stay pending while the program runs (C06_pending) and are then accepted by the same theorems. '
+                'Mode 0 with supplied bytes: known findings KF-1/KF-2 with kernel-evaluated witnesses. Partial: arbitrary handlers under the premise that they restore registers and balance the stack; the program x injection-point quantifier is exercised exhaustively per generated program by the correspondence.',
+        'note': NOTE_COMMON,
+        'technique': 'Lean 4 proof: acceptance/return lemmas (simp through C06/C01), composed round-trip theorems for all states; kernel-evaluated witnesses for the known findings; program x every-injection-point correspondence incl. real-vs-real transparency',
+    },
     'C16': {
         'text': 'Machine-checked symbolic bit-vector theorems over the definitions regenerated from flag.go/z80.go: GetFlag = any-named-bit, '
                 'SetFlag = F|m, ResetFlag = F&~m for all masks and all F, frame (A and all other fields unchanged), constants = Z80 bit positions, '
